@@ -126,6 +126,14 @@ def run_column(col, adds, doccount, storage="ram", prefix=b"", show=None, reads=
                     extra["load"] = None
             except Exception as e:  # noqa
                 extra["load"] = e
+            # sort keys, plain and after set_reverse() (last: set_reverse mutates the reader)
+            for name in ("sort_keys", "rev_keys"):
+                try:
+                    if name == "rev_keys":
+                        r.set_reverse()
+                    extra[name] = [r.sort_key(d) for d in range(doccount)] if reads is None else None
+                except Exception as e:  # noqa
+                    extra[name] = e
             return ("ok", raw, rows, extra)
         finally:
             try:
@@ -373,7 +381,8 @@ def api_schema(case):
            "dt": fields.DATETIME(sortable=True, stored=True),
            "nf": fields.NUMERIC(float, sortable=True),
            "nd": fields.NUMERIC(int, bits=32, signed=True, sortable=True, default=case["nd_default"]),
-           "kw": fields.KEYWORD(sortable=True, stored=True)}
+           "kw": fields.KEYWORD(sortable=True, stored=True),
+           "zc": fields.COLUMN(columns.NumericColumn("i"))}
     for name, (bits, signed) in INT_FIELDS.items():
         sch[name] = fields.NUMERIC(int, bits=bits, signed=signed, sortable=True, stored=(bits == 16))
     return fields.Schema(**sch)
@@ -418,7 +427,34 @@ def gen_api_case(rng, tier):
             if rng.random() < 0.3:
                 lo, hi = int_range(bits, signed)
                 doc[name] = rng.choice([lo, hi, 0, 1, hi - 1, lo + 1, rng.randint(lo, hi)])
+        if rng.random() < 0.3:
+            doc["zc"] = rng.choice([0, 1, -1, 2 ** 31 - 1, -2 ** 31, rng.randint(-1000, 1000)])
         docs.append(doc)
+    # documents the writer must reject, tried in the middle of the session (before docs[pos]); the
+    # application catches the exception and goes on indexing.  Stages: unknown field (before anything
+    # is staged), a value the field cannot convert (during staging), a column value the column writer
+    # cannot pack (inside the per-document writer, after the stored fields of the names sorted before
+    # it were handed over) — with and without column values of its own written before the failure.
+    rejects = {}
+    if rng.random() < 0.45:
+        for _ in range(rng.choice([1, 1, 2, 3])):
+            kind = rng.choice(["unknown-field", "stage-number", "stage-surrogate", "perdoc-clean", "perdoc-clean",
+                               "perdoc-cols"])
+            bad = {"st": rng.choice([u"LEAK", {"leak": 1}, 12345])}
+            if kind == "unknown-field":
+                bad.update(nosuchfield=u"x", t=u"leak t")
+            elif kind == "stage-number":
+                bad.update(t=u"leak t", kr=u"leak", u8=rng.choice([-1, 256]), kw=u"leak kw")
+            elif kind == "stage-surrogate":
+                bad.update(kr=u"leak", t=u"bad \ud800 surrogate", dt=DATES[2])
+            elif kind == "perdoc-clean":
+                bad.update(zc=rng.choice([2 ** 31, -2 ** 31 - 1, 2 ** 40]))
+            else:
+                bad.update(t=u"leak t", k=u"leak k", n16=77, kw=u"leak kw", zc=2 ** 40)
+            # after the last document only rarely: W3PerDocWriter.close() then writes the cancelled document's
+            # stored fields (recorded finding), which hides everything else about the segment
+            pos = ndocs if rng.random() < 0.1 else rng.randrange(ndocs)
+            rejects.setdefault(pos, []).append((kind, bad))
     k = rng.choice([1, 1, 2, 3])
     storage = rng.choice(["ram", "file", "file-nommap", "file-to-ram"])
     final = rng.choice(["none", "none", "optimize", "merge"])
@@ -426,20 +462,22 @@ def gen_api_case(rng, tier):
     if final == "optimize" and ndocs > 2 and rng.random() < 0.5:
         deletes = rng.sample(range(ndocs), rng.randint(1, max(1, ndocs // 3)))
     return {"docs": docs, "ncommits": k, "storage": storage, "final": final, "deletes": sorted(deletes),
-            "nd_default": rng.choice([5, -7, 0]), "compound": rng.random() < 0.7}
+            "nd_default": rng.choice([5, -7, 0]), "compound": rng.random() < 0.7, "rejects": rejects}
 
 
 def api_case_json(c):
     d = dict(c)
     d["docs"] = [{k: repr(v) for k, v in doc.items()} for doc in c["docs"]]
+    d["rejects"] = {str(pos): [(kind, {k: repr(v) for k, v in doc.items()}) for kind, doc in lst_]
+                    for pos, lst_ in c.get("rejects", {}).items()}
     return d
 
 
-API_COLUMNS = ["t", "k", "kr", "k4", "kp", "dt", "nf", "nd", "kw"] + sorted(INT_FIELDS)
+API_COLUMNS = ["t", "k", "kr", "k4", "kp", "dt", "nf", "nd", "kw", "zc"] + sorted(INT_FIELDS)
 
 
 STORED_FLAGS = {"id": True, "st": True, "t": True, "k": False, "kr": True, "k4": False, "kp": False, "dt": True,
-                "nf": False, "nd": False, "kw": True}
+                "nf": False, "nd": False, "kw": True, "zc": False}
 STORED_FLAGS.update({name: bits == 16 for name, (bits, signed) in INT_FIELDS.items()})
 
 
@@ -500,8 +538,22 @@ def api_default(c, col):
         return float("nan")
     if col == "nd":
         return c["nd_default"]
+    if col == "zc":
+        return 0
     bits, signed = INT_FIELDS[col]
     return int_range(bits, signed)[1]
+
+
+SIG_CANCEL_COLUMNS = "W3PerDocWriter.cancel_doc:column-data-written-before-the-failure-stays-in-the-column"
+SIG_CANCEL_CLOSE = "W3PerDocWriter.close:writes-the-stored-fields-of-a-cancelled-last-document"
+
+
+def reject_class(c):
+    """(some document was rejected inside the per-document writer, one of them as the last of a session)"""
+    n, k = len(c["docs"]), c["ncommits"]
+    bounds = {round(i * n / k) for i in range(1, k + 1)}
+    perdoc = [pos for pos, lst_ in c.get("rejects", {}).items() for kind, _ in lst_ if kind.startswith("perdoc")]
+    return bool(perdoc), any(pos == n for pos in perdoc)
 
 
 def run_api_case(arg):
@@ -533,8 +585,18 @@ def run_api_case(arg):
         try:
             for i in range(k):
                 w = ix.writer()
-                for j in range(bounds[i], bounds[i + 1]):
-                    w.add_document(id=u"%d" % j, **c["docs"][j])
+                for j in range(bounds[i], bounds[i + 1] + (1 if i == k - 1 else 0)):
+                    for kind, baddoc in c.get("rejects", {}).get(j, []):
+                        stats["rejects"] = stats.get("rejects", 0) + 1
+                        try:
+                            w.add_document(id=u"rejected", **baddoc)
+                        except Exception:  # noqa  (the application catches it and keeps indexing)
+                            pass
+                        else:
+                            bad("add_document:accepted-a-document-it-must-reject:" + kind, "an exception",
+                                "accepted", "add_document(%r)" % (sorted(baddoc),))
+                    if j < n:
+                        w.add_document(id=u"%d" % j, **c["docs"][j])
                 w.commit(merge=False)
             if c["final"] != "none":
                 w = ix.writer()
@@ -546,7 +608,10 @@ def run_api_case(arg):
                 st = copy_to_ram(st)
                 ix = st.open_index(indexname=ix.indexname, schema=schema)
         except Exception as e:  # noqa
-            return [("index-build:%s" % type(e).__name__, "index builds", repr(e)[:300], "indexing raised")], stats
+            sig = "index-build:%s" % type(e).__name__
+            if reject_class(c)[1]:
+                sig = SIG_CANCEL_CLOSE
+            return [(sig, "index builds", repr(e)[:300], "indexing raised")], stats
         r = ix.reader()
         try:
             _compare_api(c, r, speclines, bad, stats)
@@ -571,8 +636,10 @@ def _compare_api(c, r, speclines, bad, stats):
         try:
             orig[dn] = int(r.stored_fields(dn)["id"])
         except Exception as e:  # noqa
-            bad("reader.stored_fields:exception:" + type(e).__name__, "stored fields of doc %d" % dn, repr(e)[:200],
-                "stored_fields raised")
+            sig = "reader.stored_fields:exception:" + type(e).__name__
+            if reject_class(c)[1]:
+                sig = SIG_CANCEL_CLOSE
+            bad(sig, "stored fields of doc %d" % dn, repr(e)[:200], "stored_fields raised")
             return
     live = sorted(set(range(n)) - deleted) if c["final"] == "optimize" else sorted(
         set(range(n)) - (set(c["deletes"]) if c["final"] != "none" else set()))
@@ -627,7 +694,12 @@ def _compare_api(c, r, speclines, bad, stats):
                     break
                 continue
             if got != e:
-                bad("reader.column_reader:value:" + col, e, got,
+                sig = "reader.column_reader:value:" + col
+                if reject_class(c)[0]:
+                    # recorded finding: the rejected document had already written column data (values of
+                    # its own, or the padding rows written by fill() before the value failed to pack)
+                    sig = SIG_CANCEL_COLUMNS
+                bad(sig, e, got,
                     "column %s of document id=%d (docnum %d, %d segments)" % (col, o, dn, stats["segments"]))
                 break
         stats["columns"] = stats.get("columns", 0) + 1
@@ -728,6 +800,10 @@ def run_seg_case(c):
                     multi.append(atom(cr[d]))
                 except Exception as e:  # noqa
                     multi.append("!" + type(e).__name__)
+            try:
+                multi_iter = [atom(v) for v in cr]
+            except Exception as e:  # noqa
+                multi_iter = ["!" + type(e).__name__]
         finally:
             r.close()
         if counts != [len(s) for s in c["segs"]]:
@@ -749,9 +825,290 @@ def run_seg_case(c):
             ids = [r.stored_fields(d)["id"] for d in range(r.doc_count_all())]
         finally:
             r.close()
-        return hascols, multi, merged, ids
+        return hascols, multi, merged, ids, multi_iter
     except Exception as e:  # noqa
         return "%s: %s" % (type(e).__name__, str(e)[:200])
     finally:
         tempfile.tempdir = saved_tmp
         shutil.rmtree(tmpdir, ignore_errors=True)
+
+
+# ------------------------------------------------------------------------------------------------
+# field level: FieldType.to_column_value -> the field's own column -> TranslatingColumnReader
+# (from_column_value), against WM/Model/ColumnsField.lean (`c08 fint|ffloat|fdt|ftext|utf8|utf8dec`)
+
+CPS_POOL = [0, 0x41, 0x7f, 0x80, 0xe9, 0x7ff, 0x800, 0x4e2d, 0xd7ff, 0xe000, 0xfffd, 0xffff, 0x10000, 0x1f600,
+            0x10ffff, 0x20, 0x58]
+SURROGATES = [0xd800, 0xdbff, 0xdc00, 0xdfff]
+DT_POOL = [(0, 0, 0), (3652058, 86399, 999999), (719162, 0, 0), (719161, 86399, 999999), (738944, 43200, 1),
+           (1, 0, 0), (0, 0, 1), (3652058, 0, 0)]
+F_PATTERNS = [0x0, 0x8000000000000000, 0x3ff8000000000000, 0xc002000000000000, 0x7ff0000000000000,
+              0xfff0000000000000, 0x7ff8000000000000, 0xffffffffffffffff, 0x7fffffffffffffff, 0x1,
+              0x8000000000000001, 0x7fefffffffffffff, 0xffefffffffffffff, 0x000fffffffffffff, 0x0010000000000000]
+
+
+def f_of_pattern(b):
+    return struct.unpack(">d", struct.pack(">Q", b))[0]
+
+
+def pattern_of_f(x):
+    return struct.unpack(">Q", struct.pack(">d", x))[0]
+
+
+def gen_cps(rng, malformed=False):
+    n = rng.choice([0, 1, 1, 2, 3, 6, 70, 300] if rng.random() < 0.1 else [0, 1, 1, 2, 3, 6])
+    cps = [rng.choice(CPS_POOL) if rng.random() < 0.6 else rng.choice(
+        [rng.randrange(0x80), rng.randrange(0x80, 0x800), rng.randrange(0x800, 0xd800),
+         rng.randrange(0xe000, 0x10000), rng.randrange(0x10000, 0x110000)]) for _ in range(n)]
+    if malformed:
+        cps.insert(rng.randrange(len(cps) + 1), rng.choice(SURROGATES))
+    return cps
+
+
+def gen_field_case(rng, tier):
+    kind = rng.choice(["int"] * 5 + ["float"] * 3 + ["dt"] * 2 + ["text"] * 4 + ["utf8"] * 2 + ["utf8dec"] * 3)
+    malformed = rng.random() < 0.08
+    c = {"kind": kind, "malformed": malformed, "storage": rng.choice(STORAGES)}
+    if kind == "utf8":
+        c["cps"] = gen_cps(rng, malformed)
+        return c
+    if kind == "utf8dec":
+        bs = bytearray("".join(chr(x) for x in gen_cps(rng)).encode("utf-8"))
+        r = rng.random()
+        if r < 0.6 and bs:
+            for _ in range(rng.choice([1, 1, 2])):
+                k = rng.randrange(len(bs))
+                op = rng.choice(["flip", "del", "ins", "trunc"])
+                if op == "flip":
+                    bs[k] = rng.choice([0x80, 0xbf, 0xc0, 0xc1, 0xc2, 0xe0, 0xed, 0xf0, 0xf4, 0xf5, 0xff, 0xa0, 0x9f, 0x90,
+                                        0x8f, rng.randrange(256)])
+                elif op == "del":
+                    del bs[k]
+                elif op == "ins":
+                    bs.insert(k, rng.choice([0x80, 0xc0, 0xe0, 0xed, 0xf0, 0xf4, 0xa0, 0x90, rng.randrange(256)]))
+                else:
+                    del bs[k:]
+                if not bs:
+                    break
+        elif r < 0.75:
+            bs = bytearray(rng.choice([b"\xc0\x80", b"\xe0\x80\x80", b"\xed\xa0\x80", b"\xed\x9f\xbf", b"\xf4\x90\x80\x80",
+                                       b"\xf4\x8f\xbf\xbf", b"\xf0\x8f\xbf\xbf", b"\xf0\x90\x80\x80", b"\xe0\xa0\x80",
+                                       b"\xc2", b"\xe1\x80", b"\xf1\x80\x80", b"\x80", b"\xf8\x88\x80\x80\x80", b"\xc1\xbf",
+                                       b"\xee\x80\x80", b"\xef\xbf\xbf"]))
+        c["bytes"] = bytes(bs)
+        return c
+    n = rng.choice([0, 1, 2, 3, 6, 12])
+    ds, doccount = gen_docnums(rng, n)
+    if kind == "int":
+        bits = rng.choice([8, 16, 32, 64]) if not (malformed and rng.random() < 0.3) else rng.choice([0, 12, 24, 128])
+        signed = rng.random() < 0.6
+        lo, hi = int_range(bits, signed) if bits else (0, 0)
+        edge = [e for e in [lo, lo + 1, hi, hi - 1, 0, 1, -1, 127, 128, 255, 256, 2 ** bits - 1] if lo <= e <= hi]
+        default = rng.choice([None, None, rng.choice(edge), rng.randint(lo, hi)])
+        if malformed and rng.random() < 0.3:
+            default = rng.choice([lo - 1, hi + 1, 2 ** bits - 1 if signed else -1])
+        vals = [(default if default is not None and rng.random() < 0.2 else
+                 rng.choice(edge) if rng.random() < 0.6 else rng.randint(lo, hi)) for _ in range(n)]
+        if malformed and vals and rng.random() < 0.6:
+            vals[rng.randrange(n)] = rng.choice([lo - 1, hi + 1])
+        c.update(bits=bits, signed=signed, default=default, adds=list(zip(ds, vals)), doccount=doccount)
+    elif kind == "float":
+        signed = rng.random() < 0.75
+        default = rng.choice([None, None, None, rng.choice(F_PATTERNS)])
+        vals = [rng.choice(F_PATTERNS) if rng.random() < 0.7 else pattern_of_f(rng.uniform(-1e6, 1e6)) for _ in range(n)]
+        if default is not None and vals and rng.random() < 0.5:
+            vals[rng.randrange(n)] = default
+        c.update(signed=signed, default=default, adds=list(zip(ds, vals)), doccount=doccount)
+    elif kind == "dt":
+        vals = [rng.choice(DT_POOL) if rng.random() < 0.6 else
+                (rng.randrange(3652059), rng.randrange(86400), rng.randrange(1000000)) for _ in range(n)]
+        c.update(adds=list(zip(ds, vals)), doccount=doccount)
+    else:
+        vals = [gen_cps(rng) for _ in range(n)]
+        if malformed and vals:
+            vals[rng.randrange(n)] = gen_cps(rng, True)
+        c.update(adds=list(zip(ds, vals)), doccount=doccount, ftype=rng.choice(["ID", "TEXT", "KEYWORD"]))
+    return c
+
+
+def field_model_line(c):
+    k = c["kind"]
+    if k == "utf8":
+        return "c08 utf8 %s" % lst(map(str, c["cps"]))
+    if k == "utf8dec":
+        return "c08 utf8dec %s" % hexs(c["bytes"])
+    if k == "int":
+        return "c08 fint %d %d %s %d %s" % (c["bits"], int(c["signed"]), "-" if c["default"] is None else c["default"],
+                                            c["doccount"], adds_sexp(c["adds"], str))
+    if k == "float":
+        d = c["default"]
+        if d is None:
+            d = 0xffffffffffffffff if c["signed"] else 0x7fffffffffffffff
+        return "c08 ffloat %d %d %d %s" % (int(c["signed"]), d, c["doccount"], adds_sexp(c["adds"], str))
+    if k == "dt":
+        return "c08 fdt %d %s" % (c["doccount"], adds_sexp(c["adds"], lambda t: "(%d %d %d)" % t))
+    return "c08 ftext %d %s" % (c["doccount"], adds_sexp(c["adds"], lambda cps: lst(map(str, cps))))
+
+
+def _field_value(c, v):
+    k = c["kind"]
+    if k == "int":
+        return v
+    if k == "float":
+        return f_of_pattern(v)
+    if k == "dt":
+        return _dt.datetime.min + _dt.timedelta(*v)
+    return u"".join(chr(x) for x in v)
+
+
+def _field_show(c, v):
+    if isinstance(v, Exception):
+        return "!" + exc_name(v)
+    k = c["kind"]
+    if k == "int":
+        return "%d" % v
+    if k == "float":
+        return "%d" % pattern_of_f(v)
+    if k == "dt":
+        td = v - _dt.datetime.min
+        return "(%d %d %d)" % (td.days, td.seconds, td.microseconds)
+    return lst(["%d" % ord(ch) for ch in v])
+
+
+def field_spec_line(c):
+    """Layer S: every row is the supplied value, or the field default (opaque atoms)."""
+    k = c["kind"]
+    if k == "int":
+        lo, hi = int_range(c["bits"], c["signed"])
+        dflt = "%d" % (hi if c["default"] is None else c["default"])
+        show = str
+    elif k == "float":
+        d = c["default"]
+        if d is None:
+            d = 0xffffffffffffffff if c["signed"] else 0x7fffffffffffffff
+        dflt, show = "%d" % d, str
+    elif k == "dt":
+        dflt, show = "!OverflowError", (lambda t: "t%d.%d.%d" % t)
+    else:
+        dflt, show = "u", (lambda cps: "u" + ".".join(map(str, cps)))
+    return "c08 rows %s %d %s" % (dflt, c["doccount"], adds_sexp(c["adds"], show))
+
+
+
+
+def run_field_case(c):
+    """-> (model-comparable text, iteration problem or None)"""
+    import warnings
+    warnings.simplefilter("ignore")
+    from whoosh import fields, columns
+    from whoosh.util.text import utf8encode, utf8decode
+    k = c["kind"]
+    if k == "utf8":
+        try:
+            return "ok " + hexs(utf8encode(u"".join(chr(x) for x in c["cps"]))[0]), None
+        except UnicodeEncodeError:
+            return "err UnicodeEncodeError", None
+    if k == "utf8dec":
+        try:
+            return "ok " + lst(["%d" % ord(ch) for ch in utf8decode(c["bytes"])[0]]), None
+        except UnicodeDecodeError:
+            return "err UnicodeDecodeError", None
+    try:
+        if k == "int":
+            field = fields.NUMERIC(int, bits=c["bits"], signed=c["signed"], sortable=True, default=c["default"])
+        elif k == "float":
+            d = None if c["default"] is None else f_of_pattern(c["default"])
+            field = fields.NUMERIC(float, signed=c["signed"], sortable=True, default=d)
+        elif k == "dt":
+            field = fields.DATETIME(sortable=True)
+        else:
+            field = getattr(fields, c["ftype"])(sortable=True)
+    except Exception:  # noqa  (NUMERIC.__init__ raises a bare Exception / TypeError)
+        return "err ConfigError", None
+    col = field.column_type
+    try:
+        cadds = [(d, field.to_column_value(_field_value(c, v))) for d, v in c["adds"]]
+    except (ValueError, UnicodeEncodeError) as e:
+        return "err " + type(e).__name__, None
+    store = Store(c["storage"], b"")
+    try:
+        err = []
+
+        def w(f):
+            try:
+                cw = col.writer(f)
+                for d, v in cadds:
+                    cw.add(d, v)
+                cw.finish(c["doccount"])
+            except Exception as e:  # noqa
+                err.append(exc_name(e))
+        store.write(w)
+        if err:
+            return "err " + err[0], None
+        raw = store.raw()
+        f, basepos, length = store.open()
+        try:
+            r = columns.TranslatingColumnReader(col.reader(f, basepos, length, c["doccount"]), field.from_column_value)
+            rows = []
+            for d in range(c["doccount"]):
+                try:
+                    rows.append(r[d])
+                except Exception as e:  # noqa
+                    rows.append(e)
+            problem = None
+            if not any(isinstance(v, Exception) for v in rows):
+                try:
+                    it = list(r)
+                    if [_field_show(c, v) for v in it] != [_field_show(c, v) for v in rows]:
+                        problem = "iter %r" % ([_field_show(c, v) for v in it][:8],)
+                except Exception as e:  # noqa
+                    problem = "iter raised " + type(e).__name__
+                if problem is None and len(r) != c["doccount"]:
+                    problem = "len %d" % len(r)
+                if problem is None:
+                    problem = _sort_key_problem(r, rows)
+            return "ok %s %s" % (hexs(raw), lst([_field_show(c, v) for v in rows])), problem
+        finally:
+            try:
+                f.close()
+            except Exception:  # noqa
+                pass
+    finally:
+        store.close()
+
+
+def _sort_key_problem(r, rows):
+    """`sort_key` must order documents like their values: x < y  =>  key(x) < key(y), and the other way
+    round after set_reverse() (readers that cannot reverse raise NotImplementedError: skipped)."""
+    n = len(rows)
+    comparable = [d for d in range(n) if rows[d] == rows[d]]          # drops NaN
+    for rev in (False, True):
+        try:
+            if rev:
+                r.set_reverse()
+            keys = [r.sort_key(d) for d in range(n)]
+        except NotImplementedError:
+            return None
+        except Exception as e:  # noqa
+            return "sortkey raised %s (reverse=%s)" % (type(e).__name__, rev)
+        for a in comparable:
+            for b in comparable:
+                if rows[a] < rows[b] and not (keys[a] > keys[b] if rev else keys[a] < keys[b]):
+                    return "sortkey reverse=%s docs %d,%d values %r < %r keys %r, %r" % (
+                        rev, a, b, rows[a], rows[b], keys[a], keys[b])
+    return None
+
+
+def field_rows_as_spec(c, rowtext):
+    """Re-express the rows of a model/real reply `(row*)` in the atoms of `field_spec_line`."""
+    from vcheck import parse_sexp
+    rows = parse_sexp(rowtext)[0]
+    out = []
+    for r in rows:
+        if isinstance(r, str):
+            out.append(r)
+        elif c["kind"] == "dt":
+            out.append("t%s.%s.%s" % tuple(r))
+        else:
+            out.append("u" + ".".join(r))
+    return lst(out)
